@@ -952,12 +952,79 @@ class History(object):
             self.close()
 
 
+def dup_key_case(ctx, rng, idx):
+    """Outside the update discipline: add_document() does not enforce uniqueness, so several live documents may carry
+    one value of a unique=True field. delete_by_term / delete_by_query must still remove exactly the live documents
+    that match (and report their number), whatever the field's flags and wherever the documents sit."""
+    from whoosh import fields, query
+    from whoosh.filedb.filestore import RamStorage
+    kind = rng.choice(["ID", "NUMERIC"])
+    keyf = fields.ID(stored=True, unique=True) if kind == "ID" else fields.NUMERIC(int, stored=True, unique=True)
+    schema = fields.Schema(key=keyf, serial=fields.NUMERIC(int, stored=True), t=fields.TEXT)
+    ix = RamStorage().create_index(schema)
+    keys = [u"k1", u"k2", u"k3"] if kind == "ID" else [1, 2, 3]
+    serial = 0
+    log = []
+    w = {"variant": "dup-key", "unique_field": kind, "log": log, "case_idx": idx}
+
+    def body():
+        nonlocal serial
+        committed = {}   # serial -> key, live and committed
+        for c in range(rng.randint(2, 4)):
+            wr = ix.writer()
+            gone = set()
+            added = {}
+            for _ in range(rng.randint(1, 5)):
+                if committed and rng.random() < 0.35:
+                    k = rng.choice(keys)
+                    exp = sorted(sn for sn, kk in committed.items() if kk == k and sn not in gone)
+                    how = rng.choice(["term", "query"])
+                    got = wr.delete_by_term("key", k) if how == "term" else wr.delete_by_query(query.Term("key", k))
+                    log.append("delete_by_%s(key=%r) -> %r (live committed matches: serials %r)" % (how, k, got, exp))
+                    ctx.count("c07.dupkey.deletes")
+                    if len(exp) > 1:
+                        ctx.count("c07.dupkey.deletes_of_duplicated_key")
+                    if got != len(exp):
+                        ctx.fail("c07.dupkey", "delete_by_%s-return-value:%s" % (how, kind), w,
+                                 "returned %r but %d live documents carry the key" % (got, len(exp)))
+                        wr.cancel()
+                        return
+                    gone.update(exp)
+                else:
+                    k = rng.choice(keys)
+                    wr.add_document(key=k, serial=serial, t=u"alfa bravo")
+                    log.append("add_document(key=%r, serial=%d)" % (k, serial))
+                    added[serial] = k
+                    serial += 1
+            wr.commit(merge=rng.random() < 0.5)
+            log.append("commit")
+            for sn in gone:
+                committed.pop(sn, None)
+            committed.update(added)
+            with ix.searcher() as s:
+                ctx.count("c07.dupkey.commit_checks")
+                seen = sorted(f["serial"] for f in s.all_stored_fields())
+                if seen != sorted(committed) or s.doc_count() != len(committed):
+                    ctx.fail("c07.dupkey", "live-set-after-commit:%s" % kind, w,
+                             "serials in index %r (doc_count %d), model %r" % (seen, s.doc_count(), sorted(committed)))
+                    return
+                for k in keys:
+                    got = sorted(h["serial"] for h in s.search(query.Term("key", k), limit=None))
+                    exp = sorted(sn for sn, kk in committed.items() if kk == k)
+                    if got != exp:
+                        ctx.fail("c07.dupkey", "term-search-after-commit:%s" % kind, w, "key %r: %r, model %r" % (k, got, exp))
+                        return
+    ctx.guard("c07.dupkey", w, body)
+
+
 def run(ctx):
     from vf import model
     model.check_analysis()
     for idx in ctx.cases(quick=48, thorough=240):
         rng = ctx.rng(idx)
         ctx.reseed_global(idx)
+        if idx % 4 == 1:
+            dup_key_case(ctx, ctx.rng(idx, "dupkey"), idx)
         h = History(ctx, rng, idx)
         h.run()
         ctx.count("c07.histories")
